@@ -40,6 +40,7 @@ theorem C06_classifies (o : ReadOpts) (text : List Char) :
     right
     exact ⟨_, rfl, by simp [breaking_fails]⟩
   · next b _ =>
+    unfold readCifBlock
     simp only
     split
     · next h => right; exact ⟨_, rfl, h⟩
